@@ -3,7 +3,8 @@
 Theorems (lean/CffiVerif/Props/C13.lean) over the model of the two conversion layers
 (generated API-mode wrapper vs. cdata_call): arg_paths_agree, arg_int_spec,
 res_paths_agree, arg_then_res_roundtrip, variadic_promotion, prepare_seq_datasize,
-bytes_passthrough, tmp_array_zero_filled, and the tie of the API-path range checks to the
+bytes_passthrough, tmp_array_zero_filled, tmp_buffers_distinct (over the allocation expressions
+re-extracted from cdata_call), and the tie of the API-path range checks to the
 macro text of the working tree (api_*_is_source over Generated/IntMacros.lean).
 
 Tie to the code: random C functions (<= 8 parameters over integers of every size and
@@ -30,6 +31,7 @@ import common
 from common import InfraError
 
 sys.path.insert(0, os.path.join(common.VERIF, "translate"))
+import c13_tmpbuf  # noqa: E402   (per-argument temporary handling of cdata_call / the API wrapper, shape-checked)
 import intmacros  # noqa: E402   (C03's extractor of the _cffi_to_c_SIGNED_FN/_UNSIGNED_FN conditions and the _cffi_to_c_int dispatch)
 
 MANIFEST = {
@@ -994,7 +996,7 @@ def run_probe(ctx, paths, case, lines, plans):
 def translators(ctx):
     """Generated/IntMacros.lean: the macro conditions and the dispatch the API-path model is proved equal to
     (api_signed_check_is_source, api_unsigned_check_is_source, api_dispatch_is_source)."""
-    return [intmacros.translator(ctx)]
+    return [intmacros.translator(ctx), c13_tmpbuf.translator(ctx)]
 
 
 def run_module(ctx, nfuncs, ntuples, nprobes, model=True):
